@@ -56,9 +56,11 @@ pub fn free_port() -> u16 {
     l.local_addr().unwrap().port()
 }
 
+/// A failure of the machinery inside a case (server did not start or stopped answering on a
+/// loaded machine): raised as a panic from this harness file, which the runner turns into a
+/// `harness:` failure - the case is skipped and counted, never judged.
 pub fn harness_fail(what: &str) -> ! {
-    eprintln!("HARNESS: {what}");
-    std::process::exit(2)
+    panic!("harness: {what}")
 }
 
 impl Server {
